@@ -323,13 +323,17 @@ pub trait Labels {
             .collect()
     }
 
+    /// All labels, each once, in ascending order (the iteration order of a hash set is random)
     fn labels(&self) -> Vec<Self::Elem> {
-        self.label_set()
+        let mut labels = self
+            .label_set()
             .into_iter()
             .flatten()
             .collect::<HashSet<_>>()
             .into_iter()
-            .collect()
+            .collect::<Vec<_>>();
+        labels.sort_unstable();
+        labels
     }
 
     fn combined_labels<T>(&self, other: &T) -> Vec<Self::Elem>
